@@ -129,8 +129,12 @@ def poke_gfa(ctx, rng, g, nbytes):
         ids += [x for x in r.value if isinstance(x, str)][:5]
     for _ in range(8):
         i = rng.choice(ids)
-        op = rng.randrange(10)
-        if op == 0:
+        op = rng.randrange(12)
+        if op == 10:
+            guarded(ctx, "gfa.select(name)", nbytes, g.select, {"name": i})
+        elif op == 11:
+            guarded(ctx, "gfa.fragments_for_external", nbytes, g.fragments_for_external, i)
+        elif op == 0:
             guarded(ctx, "gfa.line", nbytes, g.line, i)
         elif op == 1:
             guarded(ctx, "gfa.segment", nbytes, g.segment, i)
